@@ -122,9 +122,12 @@ func main() {
 	e.obls = append(e.obls, lemObls...)
 	// keep the obligations of the requested property (covers/canaries follow their function)
 	var obls []*Obligation
+	unclaimed := 0
 	for _, o := range e.obls {
-		if *prop == "all" || contains(o.Props, *prop) {
+		if (*prop == "all" && (len(o.Props) > 0 || o.ExpectSat || o.Kind == "lemma")) || contains(o.Props, *prop) {
 			obls = append(obls, o)
+		} else if *prop == "all" {
+			unclaimed++ // safety obligations of a function whose contract tags them with no property
 		}
 	}
 	// lemma obligations follow the obligations that use them
